@@ -37,16 +37,15 @@ lexer grammar CTELexer;
 type LexerContext interface {
 	RecordVerbatimSentinel(text string)
 	IsAtVerbatimSentinel(stream antlr.CharStream) bool
-	IsSentinelChar(stream antlr.CharStream) bool
+	IsSentinelChar(stream antlr.CharStream, index int) bool
 }
 
 type CTELexerContext struct {
-	verbatimSentinel string
-	verbatimIndex    int
+	verbatimSentinel []rune
 }
 
 func (_this *CTELexerContext) RecordVerbatimSentinel(text string) {
-	_this.verbatimSentinel = text
+	_this.verbatimSentinel = []rune(text)
 }
 
 func (_this *CTELexerContext) IsAtVerbatimSentinel(stream antlr.CharStream) bool {
@@ -56,17 +55,14 @@ func (_this *CTELexerContext) IsAtVerbatimSentinel(stream antlr.CharStream) bool
 		}
 	  }
   
-	  _this.verbatimIndex = 0;
 	  return true;
   }
 
-func (_this *CTELexerContext) IsSentinelChar(stream antlr.CharStream) bool {
-    index := _this.verbatimIndex;
-    if index >= len(_this.verbatimSentinel) {
-      return false;
-    }
-    _this.verbatimIndex++;
-    return stream.LA(1) == int(_this.verbatimSentinel[index]);
+func (_this *CTELexerContext) IsSentinelChar(stream antlr.CharStream, index int) bool {
+	if index < 0 || index >= len(_this.verbatimSentinel) {
+		return false
+	}
+	return stream.LA(1) == int(_this.verbatimSentinel[index])
 }
 
 type CTEContextualInterpreter struct {
@@ -89,7 +85,8 @@ func isAtVerbatimSentinel(lexer *CTELexer) bool {
 }
 
 func isSentinelChar(lexer *CTELexer) bool {
-	return lexer.Interpreter.(LexerContext).IsSentinelChar(lexer.GetInputStream())
+	stream := lexer.GetInputStream()
+	return lexer.Interpreter.(LexerContext).IsSentinelChar(stream, stream.Index()-lexer.TokenStartCharIndex)
 }
 
 }
